@@ -42,7 +42,8 @@ def hx(s):
 
 
 def gen_fold_cases(r, n):
-    cases = []
+    cases = ["k0 SHL %s %d 64 64" % (lit(UNDEF), UNDEF), "k1 SHR %s %d 64 64" % (lit(UNDEF), UNDEF),   # corpus: F14 sentinel collision
+             "k2 SHR 8 8 1 1", "k3 DIV %s %d (-1) -1" % (lit(I64MIN), I64MIN), "k4 MOD %s %d (-1) -1" % (lit(I64MIN), I64MIN)]  # corpus: F1, F17 (fixed)
     # all operators on all boundary pairs would be 10*35*35; sample deterministically + full boundary for shifts
     for i in range(n):
         op = BINOPS[i % len(BINOPS)]
@@ -210,10 +211,19 @@ def run(tier, replay=None):
                 chk.violation("fold_crash.json", {"kind": "compiler/VM crash on constant expression", "engine": "fold", "harness": "h_fold", "case": c, "rc": rc1, "stderr": e1})
                 found = True
                 break
+    kf = [f for f in core.known_findings("C12") if f.get("id") == "F14"]
+    sentinel_hits = 0
     for c in fcases:
         k = c.split(" ", 1)[0]
         if k in mi and not fold_property_ok(mi[k]):
+            t = c.split()
+            operands = [int(x) for x in (t[3:4] + t[5:6])]
+            if kf and any(v == kf[0]["signature"]["operand_equals"] for v in operands):
+                sentinel_hits += 1          # listed finding F14: the operand IS the undefined sentinel
+                continue
             bad_prop.append((c, mi[k]))
+    if sentinel_hits:
+        chk.known(kf[0], "F14 constant operand equal to the YR_UNDEFINED sentinel is treated as undefined (%d cases, e.g. `(-1483400188077313) << 64`)" % sentinel_hits)
     for i, (c, o) in enumerate(bad_prop[:10]):
         chk.violation("fold_vs_vm_%d.json" % i, {"kind": "compile-time folded value differs from run-time value", "engine": "fold", "harness": "h_fold",
                                                   "case": c, "implementation": o,
